@@ -20,6 +20,7 @@ import (
 	ps "github.com/prometheus/client_golang/prometheus"
 	"github.com/youzan/ZanRedisDB/common"
 	"github.com/youzan/ZanRedisDB/metric"
+	"github.com/youzan/ZanRedisDB/pkg/verifhook"
 	"github.com/youzan/ZanRedisDB/pkg/wait"
 	"github.com/youzan/ZanRedisDB/raft"
 	"github.com/youzan/ZanRedisDB/raft/raftpb"
@@ -630,6 +631,7 @@ func (nd *KVNode) ProposeInternal(ctx context.Context, irr InternalRaftRequest, 
 	}
 	marshalCost := time.Since(start)
 	wrh.wr = nd.w.RegisterWithC(irr.Header.ID, wrh.done)
+	verifhook.Point("node.queue.beforePropose")
 	err := nd.rn.node.ProposeEntryWithDrop(ctx, e, cancel)
 	if err != nil {
 		nd.rn.Infof("propose failed : %v", err.Error())
@@ -1234,6 +1236,7 @@ func (nd *KVNode) applySnapshot(np *nodeProgress, applyEvent *applyInfo) {
 	if enableSnapApplyTest {
 		err = errors.New("failed to restore from snapshot in failed test")
 	} else {
+		verifhook.Point("node.applySnap.beforeRestore")
 		err = nd.RestoreFromSnapshot(applyEvent.snapshot)
 	}
 	if err != nil {
@@ -1248,6 +1251,7 @@ func (nd *KVNode) applySnapshot(np *nodeProgress, applyEvent *applyInfo) {
 		<-nd.stopChan
 		return
 	}
+	verifhook.Point("node.applySnap.afterRestore")
 	if enableSnapApplyBlockingTest {
 		wt := <-snapApplyBlockingC
 		time.Sleep(wt)
@@ -1360,6 +1364,7 @@ func (nd *KVNode) applyEntries(np *nodeProgress, applyEvent *applyInfo) (bool, b
 	batch := nd.sm.GetBatchOperator()
 	for i := range ents {
 		evnt := ents[i]
+		verifhook.Point("node.apply.beforeEntry")
 		isReplaying := evnt.Index <= nd.rn.lastIndex
 		switch evnt.Type {
 		case raftpb.EntryNormal:
@@ -1379,11 +1384,13 @@ func (nd *KVNode) applyEntries(np *nodeProgress, applyEvent *applyInfo) (bool, b
 		}
 		np.appliedi = evnt.Index
 		np.appliedt = evnt.Term
+		verifhook.Point("node.apply.afterEntry")
 		if evnt.Index == nd.rn.lastIndex {
 			nd.rn.Infof("replay finished at index: %v\n", evnt.Index)
 			nd.rn.MarkReplayFinished()
 		}
 	}
+	verifhook.Point("node.apply.beforeCommitBatch")
 	if batch != nil {
 		batch.CommitBatch()
 	}
